@@ -14,6 +14,22 @@ UDP_AS = ["SDK contract: shadowsocks.Pack(key, p) = salt ‖ seal(key, p) with a
           "kernel contract: a socket from net.ListenPacket has a local port distinct from all open sockets; loopback delivery is in order"]
 
 CHECKS = {
+    "C04": dict(
+        level="proof",
+        campaigns=[dict(engine="udp", n=n(150, 3000), netns=True)],
+        trusted_base=UDP_TB, assumptions=UDP_AS,
+    ),
+    "C14": dict(
+        level="proof",
+        campaigns=[dict(engine="natconn", n=n(2000, 40000)), dict(engine="udp", n=n(100, 2000), netns=True)],
+        trusted_base=UDP_TB + ["model Model/NatConn.lean of natconn.onWrite/onRead tied by the `natconn` campaign through the verif hook service/verif_export.go"],
+        assumptions=UDP_AS + ["real-time bounds (teardown 'within bounded time', 'promptly') are observed by the campaigns, not proved: the model has a logical clock"],
+    ),
+    "C16": dict(
+        level="proof",
+        campaigns=[dict(engine="udp", n=n(150, 3000), netns=True)],
+        trusted_base=UDP_TB, assumptions=UDP_AS,
+    ),
     "C03": dict(
         level="proof",
         campaigns=[dict(engine="udp", n=n(150, 3000), netns=True)],
